@@ -219,8 +219,9 @@ def build(c):
 
 
 def det_output(c, X):
-    det = build(c).fit(X)
-    y = det.predict(X)
+    det = build(c)
+    data, _ = core.fit_for(det, dict(c, fitmode=c.get("fitmode", ["same", "same", "inplace"][core._bits(c, 4, 3)])), X)
+    y = det.predict(data)
     if c["det"] in ("pelt", "mw", "sbs"):
         out = {"ev": [int(v) for v in y["ilocs"]]}
     else:
